@@ -35,13 +35,66 @@ def load_contracts(prop):
 
 
 # ---------------------------------------------------------------------------------------
+def _frontier_worker(args):
+    """explore breadth-first until enough prefixes are pending; returns them with the partial results"""
+    prop, pname, tier, want = args
+    from pyvc import harness
+    load_contracts(prop)
+    pdef = harness.PROOFS[pname]
+    try:
+        run = harness.run_symbolic(pdef, cvc5=(tier == "thorough"), frontier=want)
+    except BaseException as e:
+        return dict(res=dict(proof=pname, crash="engine fault: %s: %s" % (type(e).__name__, e), summary=[], paths=0,
+                             covers=[], undecided=None, wall_s=0.0, sources={}, stats={}), pending=[])
+    return dict(res=_pack(pname, run, harness), pending=run.pending)
+
+
+def _pack(pname, run, harness):
+    srcs = {}
+    if harness.LOADER is not None:
+        for m, (path, sha, loops) in harness.LOADER.sources.items():
+            srcs[m] = dict(path=path, sha256=sha)
+    return dict(proof=pname, crash=run.crash, summary=run.summary(), paths=run.paths,
+                covers=sorted(run.covers), undecided=run.undecided_reason, wall_s=run.wall_s,
+                sources=srcs, stats=dict(run.stats, path_outcomes=run.path_outcomes))
+
+
+def _merge(parts):
+    """merge the results of the shards of one proof"""
+    out = dict(parts[0])
+    by = {e["name"]: dict(e) for e in out["summary"]}
+    for p in parts[1:]:
+        out["paths"] += p["paths"]
+        out["wall_s"] = max(out["wall_s"], p["wall_s"]) if False else out["wall_s"] + p["wall_s"]
+        out["covers"] = sorted(set(out["covers"]) | set(p["covers"]))
+        out["crash"] = out["crash"] or p["crash"]
+        out["undecided"] = out["undecided"] or p["undecided"]
+        out["sources"].update(p["sources"])
+        for e in p["summary"]:
+            o = by.get(e["name"])
+            if o is None:
+                by[e["name"]] = dict(e)
+                continue
+            o["paths"] += e["paths"]
+            o["time_s"] += e["time_s"]
+            o["backends"] = sorted(set(o["backends"]) | set(e["backends"]))
+            o["size"] = max(o["size"], e["size"])
+            if e["status"] == "refuted" and o["status"] != "refuted":
+                o["status"], o["model"], o["detail"] = "refuted", e["model"], e["detail"]
+            elif e["status"] == "undecided" and o["status"] == "discharged":
+                o["status"], o["detail"] = "undecided", e["detail"]
+    out["summary"] = list(by.values())
+    return out
+
+
 def _sym_worker(args):
-    prop, pname, tier = args
+    prop, pname, tier = args[:3]
+    work = args[3] if len(args) > 3 else None
     from pyvc import harness, core
     load_contracts(prop)
     pdef = harness.PROOFS[pname]
     try:
-        run = harness.run_symbolic(pdef, cvc5=(tier == "thorough"))
+        run = harness.run_symbolic(pdef, cvc5=(tier == "thorough"), work=work)
     except BaseException as e:  # engine fault: never a verdict
         return dict(proof=pname, crash="engine fault: %s: %s\n%s" % (type(e).__name__, e, traceback.format_exc(limit=10)),
                     summary=[], paths=0, covers=[], undecided=None, wall_s=0.0, sources={}, stats={})
@@ -59,7 +112,7 @@ def _conc_worker(args):
     from pyvc import harness, core
     load_contracts(prop)
     pdef = harness.PROOFS[pname]
-    n = ok = skipped = 0
+    n = ok = skipped = ticks = 0
     failures = []
     distinct = set()
     sample = None
@@ -88,6 +141,7 @@ def _conc_worker(args):
             errors.append(msg)
             continue
         ok += 1
+        ticks += harness.LAST_TICKS[0]
         sig = hashlib.sha1(repr(sorted((k2, repr(v)) for k2, v in inputs.items())).encode()).hexdigest()
         distinct.add(sig)
         if sample is None:
@@ -95,7 +149,7 @@ def _conc_worker(args):
         for name, good, detail in results:
             if not good and len(failures) < 20:
                 failures.append(dict(obligation=name, inputs=core._jsonable(inputs), detail=detail))
-    return dict(proof=pname, evaluated=ok, generated=n, skipped=skipped, distinct=sorted(distinct),
+    return dict(proof=pname, evaluated=ok, generated=n, skipped=skipped, ticks=ticks, distinct=sorted(distinct),
                 failures=failures, sample=sample, errors=errors[:3], wall_s=time.time() - t0)
 
 
@@ -192,11 +246,28 @@ def main(argv):
             ns = 4 if tier == "thorough" else 2
             for s in range(ns):
                 conc_jobs.append((prop, p.name, seed, tier, s, ns))
-    with ctx.Pool(min(jobs, max(1, len(sym_jobs) + len(conc_jobs)))) as pool:
+    sharded = [p for p in proofs if not p.bounded_only and getattr(p, "shards", 1) > 1]
+    sym_jobs = [j for j in sym_jobs if harness.PROOFS[j[1]].shards <= 1]
+    with ctx.Pool(min(jobs, max(1, len(sym_jobs) + len(conc_jobs) + 8 * len(sharded))), maxtasksperchild=4) as pool:
         sym_async = pool.map_async(_sym_worker, sym_jobs, chunksize=1)
         conc_async = pool.map_async(_conc_worker, conc_jobs, chunksize=1)
+        fr_async = pool.map_async(_frontier_worker, [(prop, p.name, tier, p.shards * 3) for p in sharded], chunksize=1)
+        shard_jobs = []
+        fronts = fr_async.get()
+        for p, fr in zip(sharded, fronts):
+            pend = fr["pending"]
+            k = max(1, min(p.shards, len(pend)))
+            for i in range(k):
+                chunk = pend[i::k]
+                if chunk:
+                    shard_jobs.append((prop, p.name, tier, chunk))
+        shard_async = pool.map_async(_sym_worker, shard_jobs, chunksize=1)
         sym_res = sym_async.get()
         conc_res = conc_async.get()
+        shard_res = shard_async.get()
+    for p, fr in zip(sharded, fronts):
+        parts = [fr["res"]] + [r for r in shard_res if r["proof"] == p.name]
+        sym_res.append(_merge(parts))
 
     violations = []      # (obligation, replay path, suffix)
     known_lines = []
@@ -267,11 +338,12 @@ def main(argv):
     # bounded layer
     bounded = {}
     for r in conc_res:
-        b = bounded.setdefault(r["proof"], dict(evaluated=0, generated=0, skipped=0, distinct=set(), failures=[],
+        b = bounded.setdefault(r["proof"], dict(evaluated=0, generated=0, skipped=0, ticks=0, distinct=set(), failures=[],
                                                 sample=None, errors=[], wall_s=0.0))
         b["evaluated"] += r["evaluated"]
         b["generated"] += r["generated"]
         b["skipped"] += r["skipped"]
+        b["ticks"] += r.get("ticks", 0)
         b["distinct"].update(r["distinct"])
         b["failures"].extend(r["failures"])
         b["errors"].extend(r["errors"])
@@ -296,6 +368,7 @@ def main(argv):
                     violations.append((f["obligation"], path, ""))
         bounded_out.append(dict(proof=pname, family=(harness.PROOFS[pname].family.__doc__ or "").strip()[:300],
                                 generated=b["generated"], evaluated=b["evaluated"], skipped=b["skipped"],
+                                cases_inside_evaluations=b["ticks"],
                                 distinct=len(b["distinct"]), failures=len(b["failures"]),
                                 sample=b["sample"], errors=b["errors"][:3], labelled="bounded - never counted as proved"))
 
@@ -329,7 +402,7 @@ def main(argv):
 
     proved = n_ob > 0 and n_dis == n_ob and not proofs_undecided and not lost
     level = "proof" if proved else "other"
-    ev_total = sum(b["evaluated"] for b in bounded_out)
+    ev_total = sum(b["evaluated"] + b["cases_inside_evaluations"] for b in bounded_out)
     ev_distinct = sum(b["distinct"] for b in bounded_out)
     coverage = dict(
         obligations=n_ob, discharged=n_dis,
